@@ -370,7 +370,7 @@ def validate_events(events_path, workdir, spec="Trace", chunk=4000, jobs=None, e
             if done == len(lines) - offset:
                 break
             m = re.findall(r"/\\ l = (\d+)", text)
-            if not m or "Error" not in text or sub > 20:
+            if not m or "Error" not in text or sub > 300:
                 raise ToolError("trace validation did not consume chunk %s (%s of %s events):\n%s" % (part, done, len(lines) - offset, text[-3000:]))
             bad = int(m[-1])                       # 1-based index (within this part) of the event being consumed
             e = json.loads(lines[offset + bad - 1])
